@@ -76,3 +76,5 @@ pub mod memchr {
         it.next()
     }
 }
+
+pub use memchr::memchr;
